@@ -106,7 +106,7 @@ def enterExcludedRegion (cfg : Config) (s : FState α) : FState α × List (Out 
   else
     ({ s with excluding := true, lastPosition := some s.position },
       match cfg.enteringExcludedRegionGcode with
-      | some l => l.map .script
+      | some l => l.map (.script false)
       | none => [])
 
 def exitCoord (axis lastAxis : Axis α) : α :=
